@@ -1,4 +1,269 @@
 import WaVerif.Model.C19
+import WaVerif.Lemmas.C19Steps
+/-!
+# C19 — property theorems (LEB128)
+
+Every `theorem` in this file is an obligation of the check and is axiom-audited.
+-/
 namespace WaVerif.C19
-theorem placeholder : True := trivial
+
+/-! ## encoders: exact value, termination shape, length (minimality) -/
+
+theorem valU_encU (v : Nat) : valU (encU v) = v := by
+  induction v using Nat.strongRecOn with
+  | _ v ih =>
+    unfold encU
+    split
+    · simp [valU]; omega
+    · rename_i h
+      have := ih (v / 128) (by omega)
+      simp [valU, this]; omega
+
+theorem terminated_encU (v : Nat) : Terminated (encU v) := by
+  induction v using Nat.strongRecOn with
+  | _ v ih =>
+    unfold encU
+    split
+    · simp [Terminated]; omega
+    · rename_i h
+      have := ih (v / 128) (by omega)
+      generalize hq : encU (v / 128) = q at this
+      cases q with
+      | nil => simp [Terminated] at this
+      | cons a t => simp only [Terminated]; exact And.intro (by omega) this
+
+theorem bytes_encU (v : Nat) : Bytes (encU v) := by
+  induction v using Nat.strongRecOn with
+  | _ v ih =>
+    unfold encU
+    split
+    · intro b hb; simp at hb; omega
+    · intro b hb
+      simp at hb
+      rcases hb with rfl | hb
+      · omega
+      · exact ih (v / 128) (by omega) b hb
+
+/-- Minimality: the encoding of `v` has at most `k` bytes exactly when `v` fits in `7k` bits
+(a `k`-byte unsigned LEB128 sequence cannot denote a value ≥ 2^(7k), see `valU_lt`). -/
+theorem encU_length_le_iff (v k : Nat) (hk : 1 ≤ k) : (encU v).length ≤ k ↔ v < 2 ^ (7 * k) := by
+  induction v using Nat.strongRecOn generalizing k with
+  | _ v ih =>
+    unfold encU
+    split
+    · rename_i h
+      have h1 : v < 128 := by omega
+      have : 128 ≤ 2 ^ (7 * k) := by
+        calc 128 = 2 ^ 7 := by decide
+          _ ≤ 2 ^ (7 * k) := Nat.pow_le_pow_right (by omega) (by omega)
+      simp; omega
+    · rename_i h
+      have hv : 128 ≤ v := by omega
+      rcases Nat.lt_or_ge k 2 with hk2 | hk2
+      · have : k = 1 := by omega
+        subst this
+        simp only [List.length_cons, show (2:Nat) ^ (7 * 1) = 128 by decide]
+        have hpos : 0 < (encU (v / 128)).length := by
+          have := terminated_encU (v / 128)
+          cases h' : encU (v / 128) with
+          | nil => simp [h', Terminated] at this
+          | cons a t => simp
+        omega
+      · have := ih (v / 128) (by omega) (k - 1) (by omega)
+        have e : 2 ^ (7 * k) = 128 * 2 ^ (7 * (k - 1)) := by
+          have : 7 * k = 7 + 7 * (k - 1) := by omega
+          rw [this, Nat.pow_add]
+        simp only [List.length_cons]
+        rw [e]
+        constructor
+        · intro hl
+          have := this.mp (by omega)
+          omega
+        · intro hl
+          have := this.mpr (by
+            apply Nat.div_lt_of_lt_mul; omega)
+          omega
+
+theorem valU_lt (bs : List Nat) : valU bs < 2 ^ (7 * bs.length) := by
+  induction bs with
+  | nil => simp [valU]
+  | cons b t ih =>
+    simp only [valU, List.length_cons]
+    have e : 2 ^ (7 * (t.length + 1)) = 128 * 2 ^ (7 * t.length) := by
+      rw [show 7 * (t.length + 1) = 7 + 7 * t.length by omega, Nat.pow_add]
+    rw [e]; omega
+
+
+/-! ## round trips -/
+
+
+theorem decU32go_encU (v : Nat) : ∀ i ret rest, i ≤ 4 → ret < 2 ^ (7 * i) → v < 2 ^ (32 - 7 * i) →
+    decU32go i ret (encU v ++ rest) = .ok (ret + v * 2 ^ (7 * i), i + (encU v).length) := by
+  induction v using Nat.strongRecOn with
+  | _ v ih =>
+    intro i ret rest hi hret hv
+    have hcases : i = 0 ∨ i = 1 ∨ i = 2 ∨ i = 3 ∨ i = 4 := by omega
+    unfold encU
+    split
+    · rename_i h
+      rcases hcases with rfl | rfl | rfl | rfl | rfl <;>
+      · unfold decU32go
+        simp at hret hv ⊢
+        have hb : v % 128 < 128 := by omega
+        simp [hb]
+        first
+          | omega
+          | (have hz : ¬ (0 < v % 128 / 16 % 16) := by omega
+             rw [if_neg hz]
+             congr 2
+             omega)
+    · rename_i h
+      have hrec := ih (v / 128) (by omega) (i + 1)
+      rcases hcases with rfl | rfl | rfl | rfl | rfl <;>
+      · unfold decU32go
+        simp at hret hv hrec ⊢
+        first
+        | omega
+        | (have hb : ¬ (v % 128 + 128 < 128) := by omega
+           simp [hb]
+           rw [hrec _ rest (by omega) (by omega)]
+           simp
+           omega)
+
+/-- Round trip, unsigned 32-bit: every value, any trailing bytes; byte count = encoding length. -/
+theorem decodeU32_encU (v : Nat) (hv : v < 2 ^ 32) (rest : List Nat) :
+    decodeU32 (encU v ++ rest) = .ok (v, (encU v).length) := by
+  have := decU32go_encU v 0 0 rest (by omega) (by simp) (by simpa using hv)
+  simpa [decodeU32] using this
+
+
+theorem decS32go_encS (v : Int) : ∀ n ret rest, n ≤ 4 → ret < 2 ^ (7 * n) →
+    -(2 : Int) ^ (31 - 7 * n) ≤ v → v < 2 ^ (31 - 7 * n) →
+    decS32go n ret (encS v ++ rest) = .ok (sgn 32 (ret + v * 2 ^ (7 * n)), n + (encS v).length) := by
+  induction hm : v.natAbs using Nat.strongRecOn generalizing v with
+  | _ m ih =>
+    intro n ret rest hn hret hlo hhi
+    have hcases : n = 0 ∨ n = 1 ∨ n = 2 ∨ n = 3 ∨ n = 4 := by omega
+    have hc0 : 0 ≤ v % 128 := by omega
+    have hc1 : v % 128 < 128 := by omega
+    unfold encS
+    simp only []
+    generalize hc : (v % 128).toNat = c at *
+    have hcv : (c : Int) = v % 128 := by omega
+    have hc128 : c < 128 := by omega
+    split
+    · rename_i h
+      have hv2 : (v = c ∧ c < 64) ∨ (v = (c:Int) - 128 ∧ c ≥ 64) := by omega
+      simp only [List.cons_append, List.nil_append, List.length_cons, List.length_nil, Nat.zero_add]
+      rcases hcases with rfl | rfl | rfl | rfl | rfl
+      · exact decS32go_term_0 ret c v rest hc128 hv2 hret hlo hhi
+      · exact decS32go_term_1 ret c v rest hc128 hv2 hret hlo hhi
+      · exact decS32go_term_2 ret c v rest hc128 hv2 hret hlo hhi
+      · exact decS32go_term_3 ret c v rest hc128 hv2 hret hlo hhi
+      · exact decS32go_term_4 ret c v rest hc128 hv2 hret hlo hhi
+    · rename_i h
+      have hrec := ih (v / 128).natAbs (by omega) (v / 128) rfl (n + 1)
+      have hq : v = 128 * (v / 128) + c := by omega
+      generalize v / 128 = q at *
+      simp only [List.cons_append, List.length_cons]
+      subst hq
+      rcases hcases with rfl | rfl | rfl | rfl | rfl
+      · obtain ⟨h1, h2, h3⟩ := decS32go_step_0 ret c q (encS q ++ rest) hc128 hret
+        rw [h1, hrec _ rest (by omega) h2 (by simp at hlo hhi ⊢; omega) (by simp at hlo hhi ⊢; omega), h3]
+        simp only [Except.ok.injEq, Prod.mk.injEq, true_and]; omega
+      · obtain ⟨h1, h2, h3⟩ := decS32go_step_1 ret c q (encS q ++ rest) hc128 hret
+        rw [h1, hrec _ rest (by omega) h2 (by simp at hlo hhi ⊢; omega) (by simp at hlo hhi ⊢; omega), h3]
+        simp only [Except.ok.injEq, Prod.mk.injEq, true_and]; omega
+      · obtain ⟨h1, h2, h3⟩ := decS32go_step_2 ret c q (encS q ++ rest) hc128 hret
+        rw [h1, hrec _ rest (by omega) h2 (by simp at hlo hhi ⊢; omega) (by simp at hlo hhi ⊢; omega), h3]
+        simp only [Except.ok.injEq, Prod.mk.injEq, true_and]; omega
+      · obtain ⟨h1, h2, h3⟩ := decS32go_step_3 ret c q (encS q ++ rest) hc128 hret
+        rw [h1, hrec _ rest (by omega) h2 (by simp at hlo hhi ⊢; omega) (by simp at hlo hhi ⊢; omega), h3]
+        simp only [Except.ok.injEq, Prod.mk.injEq, true_and]; omega
+      · exfalso
+        simp at hlo hhi
+        omega
+
+/-- Round trip, signed 32-bit: every value in range, any trailing bytes. -/
+theorem decodeS32_encS (v : Int) (hlo : -(2:Int) ^ 31 ≤ v) (hhi : v < 2 ^ 31) (rest : List Nat) :
+    decodeS32 (encS v ++ rest) = .ok (v, (encS v).length) := by
+  have := decS32go_encS v 0 0 rest (by omega) (by simp) (by simpa using hlo) (by simpa using hhi)
+  simp only [decodeS32, this, sgn]
+  simp only [Except.ok.injEq, Prod.mk.injEq]; refine ⟨?_, ?_⟩ <;> simp <;> omega
+
+theorem decS64go_encS (v : Int) : ∀ n ret rest, n ≤ 9 → ret < 2 ^ (7 * n) →
+    -(2 : Int) ^ (63 - 7 * n) ≤ v → v < 2 ^ (63 - 7 * n) →
+    decS64go n ret (encS v ++ rest) = .ok (sgn 64 (ret + v * 2 ^ (7 * n)), n + (encS v).length) := by
+  induction hm : v.natAbs using Nat.strongRecOn generalizing v with
+  | _ m ih =>
+    intro n ret rest hn hret hlo hhi
+    have hcases : n = 0 ∨ n = 1 ∨ n = 2 ∨ n = 3 ∨ n = 4 ∨ n = 5 ∨ n = 6 ∨ n = 7 ∨ n = 8 ∨ n = 9 := by omega
+    have hc0 : 0 ≤ v % 128 := by omega
+    have hc1 : v % 128 < 128 := by omega
+    unfold encS
+    simp only []
+    generalize hc : (v % 128).toNat = c at *
+    have hcv : (c : Int) = v % 128 := by omega
+    have hc128 : c < 128 := by omega
+    split
+    · rename_i h
+      have hv2 : (v = c ∧ c < 64) ∨ (v = (c:Int) - 128 ∧ c ≥ 64) := by omega
+      simp only [List.cons_append, List.nil_append, List.length_cons, List.length_nil, Nat.zero_add]
+      rcases hcases with rfl | rfl | rfl | rfl | rfl | rfl | rfl | rfl | rfl | rfl
+      · exact decS64go_term_0 ret c v rest hc128 hv2 hret hlo hhi
+      · exact decS64go_term_1 ret c v rest hc128 hv2 hret hlo hhi
+      · exact decS64go_term_2 ret c v rest hc128 hv2 hret hlo hhi
+      · exact decS64go_term_3 ret c v rest hc128 hv2 hret hlo hhi
+      · exact decS64go_term_4 ret c v rest hc128 hv2 hret hlo hhi
+      · exact decS64go_term_5 ret c v rest hc128 hv2 hret hlo hhi
+      · exact decS64go_term_6 ret c v rest hc128 hv2 hret hlo hhi
+      · exact decS64go_term_7 ret c v rest hc128 hv2 hret hlo hhi
+      · exact decS64go_term_8 ret c v rest hc128 hv2 hret hlo hhi
+      · exact decS64go_term_9 ret c v rest hc128 hv2 hret hlo hhi
+    · rename_i h
+      have hrec := ih (v / 128).natAbs (by omega) (v / 128) rfl (n + 1)
+      have hq : v = 128 * (v / 128) + c := by omega
+      generalize v / 128 = q at *
+      simp only [List.cons_append, List.length_cons]
+      subst hq
+      rcases hcases with rfl | rfl | rfl | rfl | rfl | rfl | rfl | rfl | rfl | rfl
+      · obtain ⟨h1, h2, h3⟩ := decS64go_step_0 ret c q (encS q ++ rest) hc128 hret
+        rw [h1, hrec _ rest (by omega) h2 (by simp at hlo hhi ⊢; omega) (by simp at hlo hhi ⊢; omega), h3]
+        simp only [Except.ok.injEq, Prod.mk.injEq, true_and]; omega
+      · obtain ⟨h1, h2, h3⟩ := decS64go_step_1 ret c q (encS q ++ rest) hc128 hret
+        rw [h1, hrec _ rest (by omega) h2 (by simp at hlo hhi ⊢; omega) (by simp at hlo hhi ⊢; omega), h3]
+        simp only [Except.ok.injEq, Prod.mk.injEq, true_and]; omega
+      · obtain ⟨h1, h2, h3⟩ := decS64go_step_2 ret c q (encS q ++ rest) hc128 hret
+        rw [h1, hrec _ rest (by omega) h2 (by simp at hlo hhi ⊢; omega) (by simp at hlo hhi ⊢; omega), h3]
+        simp only [Except.ok.injEq, Prod.mk.injEq, true_and]; omega
+      · obtain ⟨h1, h2, h3⟩ := decS64go_step_3 ret c q (encS q ++ rest) hc128 hret
+        rw [h1, hrec _ rest (by omega) h2 (by simp at hlo hhi ⊢; omega) (by simp at hlo hhi ⊢; omega), h3]
+        simp only [Except.ok.injEq, Prod.mk.injEq, true_and]; omega
+      · obtain ⟨h1, h2, h3⟩ := decS64go_step_4 ret c q (encS q ++ rest) hc128 hret
+        rw [h1, hrec _ rest (by omega) h2 (by simp at hlo hhi ⊢; omega) (by simp at hlo hhi ⊢; omega), h3]
+        simp only [Except.ok.injEq, Prod.mk.injEq, true_and]; omega
+      · obtain ⟨h1, h2, h3⟩ := decS64go_step_5 ret c q (encS q ++ rest) hc128 hret
+        rw [h1, hrec _ rest (by omega) h2 (by simp at hlo hhi ⊢; omega) (by simp at hlo hhi ⊢; omega), h3]
+        simp only [Except.ok.injEq, Prod.mk.injEq, true_and]; omega
+      · obtain ⟨h1, h2, h3⟩ := decS64go_step_6 ret c q (encS q ++ rest) hc128 hret
+        rw [h1, hrec _ rest (by omega) h2 (by simp at hlo hhi ⊢; omega) (by simp at hlo hhi ⊢; omega), h3]
+        simp only [Except.ok.injEq, Prod.mk.injEq, true_and]; omega
+      · obtain ⟨h1, h2, h3⟩ := decS64go_step_7 ret c q (encS q ++ rest) hc128 hret
+        rw [h1, hrec _ rest (by omega) h2 (by simp at hlo hhi ⊢; omega) (by simp at hlo hhi ⊢; omega), h3]
+        simp only [Except.ok.injEq, Prod.mk.injEq, true_and]; omega
+      · obtain ⟨h1, h2, h3⟩ := decS64go_step_8 ret c q (encS q ++ rest) hc128 hret
+        rw [h1, hrec _ rest (by omega) h2 (by simp at hlo hhi ⊢; omega) (by simp at hlo hhi ⊢; omega), h3]
+        simp only [Except.ok.injEq, Prod.mk.injEq, true_and]; omega
+      · exfalso
+        simp at hlo hhi
+        omega
+
+/-- Round trip, signed 64-bit: every value in range, any trailing bytes. -/
+theorem decodeS64_encS (v : Int) (hlo : -(2:Int) ^ 63 ≤ v) (hhi : v < 2 ^ 63) (rest : List Nat) :
+    decodeS64 (encS v ++ rest) = .ok (v, (encS v).length) := by
+  have := decS64go_encS v 0 0 rest (by omega) (by simp) (by simpa using hlo) (by simpa using hhi)
+  simp only [decodeS64, this, sgn]
+  simp only [Except.ok.injEq, Prod.mk.injEq]; refine ⟨?_, ?_⟩ <;> simp <;> omega
+
+
 end WaVerif.C19
